@@ -110,6 +110,10 @@ def landscape_centre(kind, geo, D):
         return zu + 0.3 * w
     if kind == "sphere_below":
         return zl - 0.3 * w
+    if kind == "sphere_pcentre":   # minimiser exactly at the centre of the plausible box = the origin of the internal coordinates
+        pl = np.where(logc, np.log10(np.where(logc, plb, 1.0)), plb)
+        pu = np.where(logc, np.log10(np.where(logc, pub, 1.0)), pub)
+        return 0.5 * (pl + pu)
     raise ValueError(kind)
 
 
